@@ -40,6 +40,7 @@ pub fn build_ref(pattern: &str, f: &AlFlags) -> Result<Regex, String> {
         .multi_line(f.eff_multi_line())
         .dot_matches_new_line(f.eff_dot_nl())
         .case_insensitive(f.eff_ci())
+        .swap_greed(f.eff_swap_greed())
         .build()
         .map_err(|e| e.to_string())
 }
@@ -52,6 +53,8 @@ pub fn lex_flags_of(f: &AlFlags) -> LexFlags {
     lf.posix_escapes = Some(f.eff_posix());
     lf.allow_wholeline_comments = Some(f.eff_comments());
     lf.case_insensitive = f.case_insensitive;
+    lf.swap_greed = f.swap_greed;
+    lf.ignore_whitespace = f.ignore_whitespace;
     lf
 }
 
